@@ -151,12 +151,69 @@ func (p *verifsimPool) Get() any {
 	return nil
 }
 
+// Writers waiting for a sync.RWMutex (R9). A fixed table and plain loads and
+// stores under a lock the race detector does not see: the bookkeeping must not
+// order the tasks it is about.
+var (
+	verifsimWWMu sync.Mutex
+	verifsimWW   [64]struct {
+		p *sync.RWMutex
+		n int
+	}
+)
+
+//go:norace
+func verifsimWriterWaits(p *sync.RWMutex, d int) {
+	verifsimRaceDisable()
+	verifsimWWMu.Lock()
+	free := -1
+	for i := range verifsimWW {
+		if verifsimWW[i].p == p {
+			free = i
+			break
+		}
+		if verifsimWW[i].p == nil && free < 0 {
+			free = i
+		}
+	}
+	if free >= 0 { // (a full table only loses the preference, never a lock)
+		verifsimWW[free].p = p
+		verifsimWW[free].n += d
+		if verifsimWW[free].n <= 0 {
+			verifsimWW[free].p, verifsimWW[free].n = nil, 0
+		}
+	}
+	verifsimWWMu.Unlock()
+	verifsimRaceEnable()
+}
+
+//go:norace
+func verifsimWriterPending(p *sync.RWMutex) bool {
+	verifsimRaceDisable()
+	verifsimWWMu.Lock()
+	pending := false
+	for i := range verifsimWW {
+		if verifsimWW[i].p == p && verifsimWW[i].n > 0 {
+			pending = true
+			break
+		}
+	}
+	verifsimWWMu.Unlock()
+	verifsimRaceEnable()
+	return pending
+}
+
 // VerifsimResetPools empties every pool that holds something: one run must not
 // see what an earlier run of the same process left behind.
 //
 //go:norace
 func VerifsimResetPools() {
 	verifsimRaceDisable()
+	verifsimWWMu.Lock()
+	for i := range verifsimWW {
+		verifsimWW[i].p, verifsimWW[i].n = nil, 0
+	}
+	verifsimWWMu.Unlock()
 	verifsimPoolMu.Lock()
 	for i := 0; i < verifsimPoolN; i++ {
 		p := verifsimPools[i]
@@ -738,7 +795,30 @@ func (rw *rewriter) rewriteList(list []ast.Stmt) []ast.Stmt {
 						out = append(out, rw.yield("lock", s.Pos()))
 						try := &ast.CallExpr{Fun: &ast.SelectorExpr{X: recv, Sel: ast.NewIdent("Try" + m)}}
 						wait := &ast.ExprStmt{X: &ast.CallExpr{Fun: ast.NewIdent("verifsimLockWait"), Args: []ast.Expr{rw.site("lockwait", s.Pos())}}}
-						out = append(out, &ast.ForStmt{Cond: &ast.UnaryExpr{Op: token.NOT, X: try}, Body: &ast.BlockStmt{List: []ast.Stmt{wait}}})
+						var cond ast.Expr = &ast.UnaryExpr{Op: token.NOT, X: try}
+						if typ == "RWMutex" {
+							// R9: a sync.RWMutex prefers writers - from the moment a Lock call is waiting, new RLock
+							// calls wait behind it (which is what makes a read lock taken twice by one goroutine a
+							// deadlock as soon as a writer arrives in between). TryLock / TryRLock alone do not
+							// say that: the waiting writer is announced, and a reader asks before it tries.
+							var ptr ast.Expr = recv
+							if tv, ok := rw.info.Types[recv]; ok {
+								if _, isPtr := tv.Type.(*types.Pointer); !isPtr {
+									ptr = &ast.UnaryExpr{Op: token.AND, X: recv}
+								}
+							}
+							if m == "Lock" {
+								ann := func(d string) ast.Stmt {
+									return &ast.ExprStmt{X: &ast.CallExpr{Fun: ast.NewIdent("verifsimWriterWaits"), Args: []ast.Expr{ptr, &ast.BasicLit{Kind: token.INT, Value: d}}}}
+								}
+								out = append(out, ann("1"), &ast.ForStmt{Cond: cond, Body: &ast.BlockStmt{List: []ast.Stmt{wait}}}, ann("-1"))
+								rw.stats["rwlock"]++
+								continue
+							}
+							cond = &ast.BinaryExpr{Op: token.LOR, X: &ast.CallExpr{Fun: ast.NewIdent("verifsimWriterPending"), Args: []ast.Expr{ptr}}, Y: cond}
+							rw.stats["rwlock"]++
+						}
+						out = append(out, &ast.ForStmt{Cond: cond, Body: &ast.BlockStmt{List: []ast.Stmt{wait}}})
 						continue
 					case "Unlock", "RUnlock":
 						out = append(out, s, rw.yield("unlock", s.End()))
